@@ -53,6 +53,7 @@ type HistRun struct {
 	ctx   context.Context
 	ctrl  ledgercontroller.Controller
 	HTTPDiff []string
+	ikFirst  map[string]ikSeen // HTTP mode: the committed write of each idempotency key
 	V1    bool     // with API: writes are v1 requests
 	API   *httpAPI // non-nil: operations and reads go through the v2 HTTP API (TIE-H, httpop.go)
 }
@@ -134,8 +135,38 @@ func (hr *HistRun) stepHTTP(o Op) OpResult {
 		if m := hr.API.checkWriteAnswer("l1", o, res, hs); m != "" {
 			hr.HTTPDiff = append(hr.HTTPDiff, m)
 		}
+		// C13 on the HTTP answers alone (no model): once a write committed under a key, the same request under that key is
+		// answered as a hit with the same transaction id (also as a dry run); another input under the key is 400 VALIDATION
+		if o.IK != "" {
+			if hr.ikFirst == nil {
+				hr.ikFirst = map[string]ikSeen{}
+			}
+			if first, ok := hr.ikFirst[o.IK]; ok {
+				same := first.input == o.inputSx()
+				switch {
+				case same && (res.Class != "none" || !res.Hit || fmt.Sprint(ptrVal(res.TxID)) != fmt.Sprint(ptrVal(first.tx))):
+					hr.HTTPDiff = append(hr.HTTPDiff, fmt.Sprintf("operation %d repeats a committed request under its idempotency key %q and is answered %s (expected the original transaction %v flagged Idempotency-Hit) [http-ik-replay]", len(hr.Ops), o.IK, res.sx(), ptrVal(first.tx)))
+				case !same && res.Class != "400:VALIDATION":
+					hr.HTTPDiff = append(hr.HTTPDiff, fmt.Sprintf("operation %d reuses the idempotency key %q of a committed write with another input and is answered %s (expected 400 VALIDATION) [http-ik-reuse]", len(hr.Ops), o.IK, res.sx()))
+				}
+			} else if res.Class == "none" && !o.Dry {
+				hr.ikFirst[o.IK] = ikSeen{o.inputSx(), res.TxID}
+			}
+		}
 	}
 	return res
+}
+
+type ikSeen struct {
+	input string
+	tx    *int64
+}
+
+func ptrVal(p *int64) any {
+	if p == nil {
+		return "nil"
+	}
+	return *p
 }
 
 func sameHashes(a, b []SnapLog) bool {
